@@ -33,7 +33,12 @@ type Document struct {
 	nextImageID int
 	// 打开的文档中 styles.xml 关系原有的ID（为空表示没有，保存时使用 rId1）
 	stylesRelationshipID string
+	// 解析时当前的表格嵌套深度
+	tableNesting int
 }
+
+// maxTableNesting 打开文档时允许的最大表格嵌套深度
+const maxTableNesting = 64
 
 // Body 表示文档主体
 type Body struct {
@@ -2873,8 +2878,13 @@ func (d *Document) parseTableCell(decoder *xml.Decoder, startElement xml.StartEl
 					cell.Paragraphs = append(cell.Paragraphs, *para)
 				}
 			case "tbl":
-				// 解析嵌套表格
+				// 解析嵌套表格（限制嵌套深度：缩进序列化的开销随深度平方增长）
+				if d.tableNesting >= maxTableNesting {
+					return nil, WrapError("parse_table_cell", fmt.Errorf("tables nested deeper than %d levels", maxTableNesting))
+				}
+				d.tableNesting++
 				nested, err := d.parseTable(decoder, t)
+				d.tableNesting--
 				if err != nil {
 					return nil, err
 				}
